@@ -1,6 +1,7 @@
 import Vinegar.Lemmas.TftpErrors
 import Vinegar.Lemmas.TftpData
 import Vinegar.Theorems.C01
+import Vinegar.Lemmas.TftpForeign
 /-
 C09 — no client input stops a server or reaches its internal-error path; TIDs isolated (TFTP).
 
@@ -553,6 +554,195 @@ theorem foreign_then_end (expect limit now d src : Nat) (data : Bytes)
   rw [foreign_gets_error5 expect limit now d 0 src data _ hsrc hd]
   simp only [Nat.add_zero, Res.pre_now, Res.pre_out, Res.pre_obs, awaitAck, hrem]
   simp
+
+/-! ### foreign packets do not interfere: whole transfers
+
+The step lemmas lifted (`Lemmas/TftpForeign.lean`: one try `awaitAck_sim`, the retry loop, the
+block loop, the request) to every configuration, request, handler result and event script with any
+number of foreign datagrams anywhere, arriving before OR after the deadlines of the tries.
+
+* `dropForeign script`: the script in which the foreign datagrams (src ≠ 0) never existed - each is
+  removed, its delay added to the delay of the datagram that follows (nothing to add before
+  `silence` or at the end);
+* `clientView trace`: the trace without the events that concern a foreign peer (`recv` from and
+  `send` to an address ≠ 0), order and time stamps kept;
+* `foreignOK script`: every foreign datagram has cpu = 0 and, if its delay is not 0, what follows it
+  after removing further foreign datagrams is not `silence`.
+
+The statement first aimed at - only "cpu = 0" assumed -
+
+    ∀ cfg rrq h script, foreignZeroCpu script = true →
+      clientView (runTransfer cfg rrq h script) = clientView (runTransfer cfg rrq h (dropForeign script))
+
+is FALSE (`foreign_noninterference_needs_side_condition`), for a reason that lies in the meaning of
+the script event `silence`, not in the server: `silence` stands for "nothing arrives before the
+deadline of the try that is current when the event is reached". A foreign datagram that misses a
+deadline is carried into the next try, so in `[pkt 3000 0 7 _, silence, ACK]` (interval 2048) the
+`silence` describes the SECOND try (2048..4096) and the ACK arrives at 4096, whereas in
+`[silence, ACK]` it describes the first try and the ACK arrives at 2048: removing the datagram is
+not a local operation on such a script. No `d < remaining` hypothesis is needed anywhere else:
+a foreign datagram that misses a deadline and is followed by a datagram or by the end of the script
+times the try out in both runs at the same tick and is carried over with the corresponding delay.
+(`foreignOK` is sufficient, not tight: a delayed foreign datagram before `silence` that still arrives
+within the try is harmless as well - `foreign_then_silence` - but that is a condition on the run,
+not on the script.) `silence` itself is redundant (`awaitAck_silence_as_delay`: it is a datagram arriving a rest-of-try
+later), so every arrival pattern has a script that satisfies `foreignOK` once its foreign datagrams
+have cpu = 0. That cpu = 0 is needed is plain (`foreign_cpu_matters`): the model charges the
+handling time of every datagram to the one thread of the transfer. -/
+
+/-- the hypothesis of the unconditional statement: foreign datagrams are handled in no time -/
+def foreignZeroCpu (script : List Ev) : Bool :=
+  script.all (fun ev => match ev with
+    | .pkt _ cpu src _ => src == 0 || cpu == 0
+    | .silence => true)
+
+theorem foreignOK_zeroCpu : ∀ (script : List Ev), foreignOK script = true → foreignZeroCpu script = true
+  | [], _ => rfl
+  | .silence :: s, h => by
+    have := foreignOK_zeroCpu s (by simpa [foreignOK] using h)
+    simpa [foreignZeroCpu] using this
+  | .pkt d cpu src data :: s, h => by
+    simp only [foreignOK, Bool.and_eq_true, Bool.or_eq_true, beq_iff_eq] at h
+    have := foreignOK_zeroCpu s h.2
+    simp only [foreignZeroCpu, List.all_cons, Bool.and_eq_true, Bool.or_eq_true, beq_iff_eq] at this ⊢
+    exact ⟨h.1.imp id (fun x => x.1), this⟩
+
+/-- **TID isolation, whole transfers**: for every configuration, request, handler result and event
+script (any number of foreign datagrams, anywhere, before or after the deadlines), what the transfer
+does apart from answering the foreign peers - every datagram to and from the client, every timeout,
+the closing of file and socket, exception records, each with its time stamp and in order - is
+exactly the run on the script in which the foreign datagrams never existed -/
+theorem foreign_noninterference (cfg : Cfg) (rrq : Rrq) (h : HandlerResult) (script : List Ev)
+    (hok : foreignOK script = true) :
+    clientView (runTransfer cfg rrq h script) = runTransfer cfg rrq h (dropForeign script) := by
+  cases h with
+  | tftpError code => simp [runTransfer, clientView, isClientObs]
+  | raised => simp [runTransfer, clientView, isClientObs]
+  | stream content caps sizeKnown faultAt =>
+    simp only [runTransfer]
+    have hS := processRequest_sim (envOf cfg rrq (.stream content caps sizeKnown faultAt))
+      (negOf cfg rrq (.stream content caps sizeKnown faultAt)).oack
+      (blockReads rrq.netascii (negOf cfg rrq (.stream content caps sizeKnown faultAt)).blockSize content caps faultAt)
+      0 script hok
+    generalize processRequest (envOf cfg rrq (.stream content caps sizeKnown faultAt))
+      (negOf cfg rrq (.stream content caps sizeKnown faultAt)).oack
+      (blockReads rrq.netascii (negOf cfg rrq (.stream content caps sizeKnown faultAt)).blockSize content caps faultAt)
+      0 script = A at hS
+    generalize processRequest (envOf cfg rrq (.stream content caps sizeKnown faultAt))
+      (negOf cfg rrq (.stream content caps sizeKnown faultAt)).oack
+      (blockReads rrq.netascii (negOf cfg rrq (.stream content caps sizeKnown faultAt)).blockSize content caps faultAt)
+      0 (dropForeign script) = B at hS
+    rw [clientView_append, clientView_append, hS.obs, hS.out, hS.now, clientView_finish]
+    simp [clientView, isClientObs]
+
+/-- the same in the symmetric form: the client views of the two runs are equal (the run without
+foreign datagrams has nothing to project away) -/
+theorem foreign_noninterference_view (cfg : Cfg) (rrq : Rrq) (h : HandlerResult) (script : List Ev)
+    (hok : foreignOK script = true) :
+    clientView (runTransfer cfg rrq h script) = clientView (runTransfer cfg rrq h (dropForeign script)) := by
+  rw [← foreign_noninterference cfg rrq h script hok, clientView_idem]
+
+/-- outcome, clock and consumption of the script: the request ends the same way, at the same tick,
+and leaves corresponding rests of the script -/
+theorem foreign_noninterference_outcome (env : Env) (oack : Opts) (blocks : List (Option Bytes)) (now : Nat)
+    (script : List Ev) (hok : foreignOK script = true) :
+    (processRequest env oack blocks now script).out = (processRequest env oack blocks now (dropForeign script)).out ∧
+    (processRequest env oack blocks now script).now = (processRequest env oack blocks now (dropForeign script)).now ∧
+    dropForeign (processRequest env oack blocks now script).rest =
+      (processRequest env oack blocks now (dropForeign script)).rest :=
+  let hS := processRequest_sim env oack blocks now script hok
+  ⟨hS.out, hS.now, hS.rest⟩
+
+/-- the unconditional statement is false: a foreign datagram that misses a deadline, followed by
+`silence` (see the section comment) -/
+theorem foreign_noninterference_needs_side_condition :
+    ¬ (∀ (cfg : Cfg) (rrq : Rrq) (h : HandlerResult) (script : List Ev), foreignZeroCpu script = true →
+        clientView (runTransfer cfg rrq h script) = clientView (runTransfer cfg rrq h (dropForeign script))) := by
+  intro H
+  have := H ⟨2048, 30, 2, 65464, some 0⟩ ⟨false, []⟩ (.stream [1, 2, 3] [] true none)
+    [.pkt 3000 0 7 [9], .silence, .pkt 0 0 0 (ackPacket 1)] (by decide)
+  revert this
+  decide
+
+/-- … and the two client views of that script: the acknowledgement is received at 4096 in one and at
+2048 in the other -/
+example :
+    clientView (runTransfer ⟨2048, 30, 2, 65464, some 0⟩ ⟨false, []⟩ (.stream [1, 2, 3] [] true none)
+      [.pkt 3000 0 7 [9], .silence, .pkt 0 0 0 (ackPacket 1)]) =
+      [.send 0 0 (dataPacket 1 [1, 2, 3]), .timeout 2048, .send 2048 0 (dataPacket 1 [1, 2, 3]), .timeout 4096,
+       .send 4096 0 (dataPacket 1 [1, 2, 3]), .recv 4096 4096 0 (ackPacket 1), .closeFile, .closeSocket] ∧
+    runTransfer ⟨2048, 30, 2, 65464, some 0⟩ ⟨false, []⟩ (.stream [1, 2, 3] [] true none)
+      (dropForeign [.pkt 3000 0 7 [9], .silence, .pkt 0 0 0 (ackPacket 1)]) =
+      [.send 0 0 (dataPacket 1 [1, 2, 3]), .timeout 2048, .send 2048 0 (dataPacket 1 [1, 2, 3]),
+       .recv 2048 2048 0 (ackPacket 1), .closeFile, .closeSocket] := by decide
+
+/-- the same datagram followed by a late ACK instead of `silence` + ACK (the same arrival times,
+written with a delay) meets `foreignOK` -/
+example : foreignOK [.pkt 3000 0 7 [9], .pkt 1096 0 0 (ackPacket 1)] = true := by decide
+
+/-- a foreign datagram whose handling takes time does delay the transfer (one thread per transfer) -/
+theorem foreign_cpu_matters :
+    clientView (runTransfer ⟨2048, 30, 2, 65464, some 0⟩ ⟨false, []⟩ (.stream [1, 2, 3] [] true none)
+      [.pkt 5 1 7 [9], .pkt 5 0 0 (ackPacket 1)]) ≠
+    runTransfer ⟨2048, 30, 2, 65464, some 0⟩ ⟨false, []⟩ (.stream [1, 2, 3] [] true none)
+      (dropForeign [.pkt 5 1 7 [9], .pkt 5 0 0 (ackPacket 1)]) := by decide
+
+/-- **data and timing verdicts**: the trace with the foreign events erased is itself accepted by the
+C02 automaton - lock-step, retransmission only at the deadline set when the try started, bounded - so
+the timing the client sees is on schedule for a checker that knows nothing of the foreign packets;
+and the verdicts on the two full traces agree (both are accepted, `C02.c02Check_runTransfer`) -/
+theorem foreign_c02_agree (cfg : Cfg) (hw : WrapOK cfg.wrap) (rrq : Rrq) (h : HandlerResult)
+    (script : List Ev) (hok : foreignOK script = true) :
+    c02Check (negOf cfg rrq h).timeout cfg.maxRetries (clientView (runTransfer cfg rrq h script)) = true ∧
+    c02Check (negOf cfg rrq h).timeout cfg.maxRetries (runTransfer cfg rrq h script) =
+      c02Check (negOf cfg rrq h).timeout cfg.maxRetries (runTransfer cfg rrq h (dropForeign script)) := by
+  rw [foreign_noninterference cfg rrq h script hok, C02.c02Check_runTransfer cfg hw rrq h script,
+    C02.c02Check_runTransfer cfg hw rrq h (dropForeign script)]
+  exact ⟨rfl, rfl⟩
+
+/-- the same for the data checker: the DATA packets in the client view are the ideal sequence (a prefix
+of it if the transfer was aborted), and the verdicts on the two full traces agree -/
+theorem foreign_c01_agree (cfg : Cfg) (hw : WrapOK cfg.wrap) (rrq : Rrq) (content : Bytes)
+    (caps : List Nat) (sizeKnown : Bool) (script : List Ev) (hok : foreignOK script = true) :
+    c01Check rrq.netascii (negOf cfg rrq (.stream content caps sizeKnown none)).blockSize cfg.wrap
+      (negOf cfg rrq (.stream content caps sizeKnown none)).timeout cfg.maxRetries content
+      (clientView (runTransfer cfg rrq (.stream content caps sizeKnown none) script)) = true ∧
+    c01Check rrq.netascii (negOf cfg rrq (.stream content caps sizeKnown none)).blockSize cfg.wrap
+      (negOf cfg rrq (.stream content caps sizeKnown none)).timeout cfg.maxRetries content
+      (runTransfer cfg rrq (.stream content caps sizeKnown none) script) =
+    c01Check rrq.netascii (negOf cfg rrq (.stream content caps sizeKnown none)).blockSize cfg.wrap
+      (negOf cfg rrq (.stream content caps sizeKnown none)).timeout cfg.maxRetries content
+      (runTransfer cfg rrq (.stream content caps sizeKnown none) (dropForeign script)) := by
+  rw [foreign_noninterference cfg rrq _ script hok, C01.c01Check_runTransfer cfg hw rrq content caps sizeKnown script,
+    C01.c01Check_runTransfer cfg hw rrq content caps sizeKnown (dropForeign script)]
+  exact ⟨rfl, rfl⟩
+
+/-- a transfer of two blocks with an OACK (blksize 8) and three foreign datagrams in different phases:
+a forged ACK 0 before the client's ACK 0; a stray between DATA 1 and its acknowledgement; one that
+misses the deadline of the first try of DATA 1 and arrives during the retry -/
+def demoForeign : List Ev :=
+  [.pkt 3 0 7 (ackPacket 0), .pkt 2 1 0 (ackPacket 0),
+   .pkt 1 0 8 [9], .pkt 2500 0 9 (ackPacket 1), .pkt 10 1 0 (ackPacket 1),
+   .pkt 4 1 0 (ackPacket 2)]
+
+/-- the hypothesis of `foreign_noninterference` is met by it; the three foreign datagrams are received
+and answered (six events), there is a retry, and the client view is the run without them -/
+example :
+    foreignOK demoForeign = true ∧
+    dropForeign demoForeign =
+      [.pkt 5 1 0 (ackPacket 0), .pkt 2511 1 0 (ackPacket 1), .pkt 4 1 0 (ackPacket 2)] ∧
+    ((runTransfer ⟨2048, 30, 1, 65464, some 0⟩ ⟨false, [("blksize".toList, "8".toList)]⟩
+        (.stream [1, 2, 3, 4, 5, 6, 7, 8, 9] [] true none) demoForeign).filter (fun o => !isClientObs o)).length = 6 ∧
+    clientView (runTransfer ⟨2048, 30, 1, 65464, some 0⟩ ⟨false, [("blksize".toList, "8".toList)]⟩
+        (.stream [1, 2, 3, 4, 5, 6, 7, 8, 9] [] true none) demoForeign) =
+      [.send 0 0 (oackPacket [("blksize".toList, "8".toList)]), .recv 5 6 0 (ackPacket 0),
+       .send 6 0 (dataPacket 1 [1, 2, 3, 4, 5, 6, 7, 8]), .timeout 2054,
+       .send 2054 0 (dataPacket 1 [1, 2, 3, 4, 5, 6, 7, 8]), .recv 2517 2518 0 (ackPacket 1),
+       .send 2518 0 (dataPacket 2 [9]), .recv 2522 2523 0 (ackPacket 2), .closeFile, .closeSocket] ∧
+    runTransfer ⟨2048, 30, 1, 65464, some 0⟩ ⟨false, [("blksize".toList, "8".toList)]⟩
+        (.stream [1, 2, 3, 4, 5, 6, 7, 8, 9] [] true none) (dropForeign demoForeign) =
+      clientView (runTransfer ⟨2048, 30, 1, 65464, some 0⟩ ⟨false, [("blksize".toList, "8".toList)]⟩
+        (.stream [1, 2, 3, 4, 5, 6, 7, 8, 9] [] true none) demoForeign) := by decide
 
 /-! ### non-vacuity -/
 
